@@ -258,7 +258,8 @@ pub fn check_case(rep: &mut Report, p: &Ivs, seed: u64, thorough: bool) {
         let mut inc = CharPartition::new();
         for (i, &(a, b)) in p.iter().enumerate() {
             let partial: Ivs = p[..i].to_vec();
-            for x in [a, b, a + (b - a) / 2, if i > 0 { p[i - 1].1 } else { 0 }] {
+            // the last query before the push is a character of the interval about to be pushed
+            for x in [if i > 0 { p[i - 1].1 } else { 0 }, b, a + (b - a) / 2, a] {
                 rep.inc("interleaved_queries");
                 let want = match class_of(&partial, x) {
                     Some(k) => ClassId::Interval(k),
@@ -284,6 +285,12 @@ pub fn check_case(rep: &mut Report, p: &Ivs, seed: u64, thorough: bool) {
                 continue;
             }
             inc.push(a, b);
+            // ... and the first query after the push asks for the same character again
+            let got = inc.class_of_char(a);
+            if got != ClassId::Interval(i) {
+                rep.violation("interleaved", "interleaved:query-after-push", format!("right after pushing [{:x},{:x}] as interval {} of {}: class_of_char({:x}) = {}", a, b, i, case, a, got), "partition", &case, seed);
+                return;
+            }
         }
         if !same_partition(&inc, &cp) {
             rep.violation("interleaved", "interleaved:final", format!("incrementally built partition differs for {}", case), "partition", &case, seed);
